@@ -172,6 +172,11 @@ fn cell(idx: u64, seed: u64, variant: u64, rec: &mut Rec) {
         if is_redirect_status(status) {
             head.fields.push(Field::new("Location", b"/n"));
         }
+        if idx % 4 == 1 {
+            // a field with an empty value in front of the Connection fields: what comes behind it still counts
+            head.fields.push(Field::new("X-Trace", b""));
+            rec.cov("response/empty-valued-field-before-connection");
+        }
         for v in resp_conn {
             head.fields.push(Field::new("Connection", v));
         }
